@@ -205,9 +205,17 @@ def serialisations(rng, cfg):
             items = list(o.items()); rng.shuffle(items); return {k: shuffled(v) for k, v in items}
         if isinstance(o, list): return [shuffled(x) for x in o]
         return o
-    compact = json.dumps(cfg, separators=(",", ":"))
-    out = [("compact", compact), ("pretty2", json.dumps(cfg, indent=2)), ("pretty8", json.dumps(cfg, indent=8)),
-           ("shuffled", json.dumps(shuffled(cfg), indent=1))]
+    compact = json.dumps(cfg, separators=(",", ":"), ensure_ascii=False)
+    out = [("compact", compact), ("pretty2", json.dumps(cfg, indent=2, ensure_ascii=False)), ("pretty8", json.dumps(cfg, indent=8)),
+           ("shuffled", json.dumps(shuffled(cfg), indent=1, ensure_ascii=False))]
+    # a multi-byte UTF-8 character placed so that each of its bytes falls on a multiple of 8192 (any chunked reader's seam)
+    enc = compact.encode("utf-8")
+    mb = next((i for i, b in enumerate(enc) if b >= 0x80), None)
+    if mb is not None:
+        for seam in (8192, 16384, 65536, 131072):
+            for delta in (0, 1, 2):
+                pad = seam - mb - delta
+                if pad >= 0: out.append(("seam_%d_%d" % (seam, delta), " " * pad + compact))
     for size in (9000, 70000, 300000):
         pad = max(0, size - len(compact))
         out.append(("lead_pad_%d" % size, " " * pad + compact))
@@ -220,6 +228,7 @@ def c18_case(ctx, rng, n_targets):
     lock_port, log_port = vlib.fresh_ports()
     if n_targets <= 8:
         cfg = G.gen_config(rng, nmax=n_targets)
+        if rng.random() < 0.7: cfg["targets"].append({"path": "svc/caf\u00e9 \u65e5\u672c"})
     else:
         cfg = {"targets": [{"path": "pkg/t%03d" % i, **({"uses": ["pkg/t%03d" % rng.randrange(i)]} if i and rng.random() < 0.5 else {})} for i in range(n_targets)]}
     cfg["server"] = {"lock": {"port": lock_port, "bind_timeout_ms": 1000}, "log": {"port": log_port, "bind_timeout_ms": 1000}}
@@ -227,19 +236,19 @@ def c18_case(ctx, rng, n_targets):
     try:
         ref = None
         for name, text in serialisations(rng, cfg):
-            open(os.path.join(d, "Monorail.json"), "w").write(text)
+            open(os.path.join(d, "Monorail.json"), "w", encoding="utf-8").write(text)
             outs = {}
             for api, args in (("config_show", ["config", "show"]), ("analyze", ["analyze", "--target-groups"]), ("target_show", ["target", "show", "--target-groups"])):
                 rc, out, err, raw = cli(d, *args)
                 if out: out.pop("timestamp", None)
                 if err: err.pop("timestamp", None)
                 outs[api] = [rc, out if rc == 0 else (err or {}).get("type")]
-            size = len(text)
+            size = len(text.encode('utf-8'))
             if ref is None: ref = outs; ref_name = name
             same = outs == ref
             accepted = all(v[0] == 0 for v in outs.values()) or outs["config_show"][0] == 0
             v = ctx.model.call("cfgfile", True, False, [], [], 1, [], outs["config_show"][0] == 0)
-            ctx.count("ser_" + name.split("_")[0]); ctx.count("size_" + ("le8k" if size <= 8192 else "le64k" if size <= 65536 else "gt64k"))
+            ctx.count("ser_" + name.split("_")[0]);  ctx.count("size_" + ("le8k" if size <= 8192 else "le64k" if size <= 65536 else "gt64k"))
             ctx.record({"targets": n_targets, "serialisation": name, "size": size, "cfg": cfg if n_targets <= 8 else "generated-%d" % n_targets}, True, bool(v[2]), same and bool(v[3]), size > 8192,
                        sample={"serialisation": name, "size": size, "targets": len(cfg["targets"]), "exit_codes": {k: v[0] for k, v in outs.items()}} if size > 8192 else None,
                        detail={"what": "same JSON value, different bytes: outputs must be identical to the %s serialisation" % ref_name, "serialisation": name, "size": size,
